@@ -4,6 +4,7 @@ package verifc04
 
 import (
 	"fmt"
+	"os"
 	"testing"
 
 	"github.com/cloudflare/circl/internal/verifmc"
@@ -37,7 +38,7 @@ func Samplers(t *testing.T, im *Impl) {
 	thorough := r.Thorough()
 	r.Rule("PolyDeriveUniform / X4 / Mat.Derive vs RejNTTPoly / ExpandA, PolyDeriveUniformLeqEta vs RejBoundedPoly, PolyDeriveUniformLeGamma1 / VecL vs ExpandMask, PolyDeriveUniformBall (/X4) vs SampleInBall; " +
 		"seeds = fixed alphabet SEEDS(32|64); nonces: quick = all (row,col) < 16x16 for A, 0..255 for S, 0..1023 and the 16-bit wrap for the mask; thorough = all 2^16 nonces for one seed; " +
-		"c~ = 2^12 counter values + structured seeds; four-way: every non-empty lane mask; distinct = (sampler, seed, nonce) ; counters give how many cases rejected at least one candidate / crossed a SHAKE block")
+		"c~ = 2^12 counter values + structured seeds; four-way: every non-empty lane mask; boundary candidates: rho_i = SHAKE256(\"c04-boundary/i\") x all 2^16 nonces scanned until the ExpandA streams contain a consumed candidate == q (4 streams), q-1, q+1, 2^23-1, 0 (3 each) and a refusal at the last position (4), run through the scalar route and the four-way route with the stream in every lane under every mask containing it, plus Mat.Derive on the rho of two key seeds with such a stream; eta sampler on 4096 nonces with floors on where the 256th coefficient comes from; mask sampler on 16384 nonces with floors on extreme coefficients; SampleInBall floors on j == i, j == i+1, j == 0; distinct = (sampler, seed, nonce) ; counters give how many cases rejected at least one candidate / crossed a SHAKE block")
 	key := func(fn, class string) string { return "C04|" + im.Name + "|" + fn + "|" + class }
 	seeds32 := verifmc.Seeds(32, r.Seed())
 	seeds64 := verifmc.Seeds(64, r.Seed())
@@ -164,6 +165,127 @@ func Samplers(t *testing.T, im *Impl) {
 		}
 	})
 
+	// ---------------- ExpandA on boundary candidates (searched streams, see boundary.go)
+	if !r.Replaying() || r.Want("boundary") {
+		hits, found, streams := boundaryUniformHits()
+		r.Set("boundary_streams_scanned", streams)
+		for c := 0; c < nCls; c++ {
+			r.Count("boundary_streams_"+clsNames[c], found[c])
+		}
+		x4pairs := 0
+		verifmc.ParallelFor(len(hits), func(hi int) {
+			h := hits[hi]
+			id := "boundary/" + h.id()
+			seed := h.Rho
+			want, st := ref.RejNTTPoly(append(append([]byte{}, seed[:]...), byte(h.Nonce), byte(h.Nonce>>8)))
+			// the reference's own statistics must confirm what the scanner found
+			chk := [nCls]bool{st.EqQ > 0, st.EqQm1 > 0, st.EqQp1 > 0, st.EqMax > 0, st.EqZero > 0, st.RejectedAtLast > 0, st.EqQAtLast}
+			for c := 0; c < nCls; c++ {
+				if (h.Mask>>uint(c)&1 == 1) != chk[c] {
+					panic(fmt.Sprintf("harness: scanner and reference disagree on class %s of stream %s", clsNames[c], id))
+				}
+			}
+			var got P
+			for i := range got {
+				got[i] = 0xdeadbeef
+			}
+			im.DeriveUniform(&got, &seed, h.Nonce)
+			r.Eval(1)
+			r.Distinct("Ab", h.RhoIdx, h.Nonce)
+			if !polyEq(&got, want) || !normalized(&got) {
+				r.Violation(key("PolyDeriveUniform", "differs-from-RejNTTPoly|boundary-candidate"), id,
+					fmt.Sprintf("%s PolyDeriveUniform(rho = %x, nonce %#04x) differs from RejNTTPoly on a stream with boundary candidates (q:%d q-1:%d q+1:%d 2^23-1:%d 0:%d refused-at-last:%d)",
+						im.Name, seed, h.Nonce, st.EqQ, st.EqQm1, st.EqQp1, st.EqMax, st.EqZero, st.RejectedAtLast),
+					map[string]interface{}{"rho": verifmc.FullHex(seed[:]), "nonce": h.Nonce})
+			}
+			if !im.X4 {
+				return
+			}
+			// four-way: the boundary stream in every lane, under every lane mask that contains the lane
+			for lane := 0; lane < 4; lane++ {
+				var nonces [4]uint16
+				var wants [4]*ref.Poly
+				for l := 0; l < 4; l++ {
+					nonces[l] = h.Nonce + uint16(1+(l+4-lane)%4)
+					if l == lane {
+						nonces[l] = h.Nonce
+					}
+					wants[l], _ = ref.RejNTTPoly(append(append([]byte{}, seed[:]...), byte(nonces[l]), byte(nonces[l]>>8)))
+				}
+				for mask := 1; mask < 16; mask++ {
+					if mask>>uint(lane)&1 == 0 {
+						continue
+					}
+					var ps [4]*P
+					var out [4]P
+					for l := 0; l < 4; l++ {
+						for i := range out[l] {
+							out[l][i] = 0xdeadbeef
+						}
+						if mask>>uint(l)&1 == 1 {
+							ps[l] = &out[l]
+						}
+					}
+					im.DeriveUniformX4(ps, &seed, nonces)
+					r.Eval(1)
+					r.Count("boundary_x4_calls", 1)
+					r.Distinct("A4b", h.RhoIdx, h.Nonce, lane, mask)
+					for l := 0; l < 4; l++ {
+						if ps[l] != nil && (!polyEq(&out[l], wants[l]) || !normalized(&out[l])) {
+							r.Violation(key("PolyDeriveUniformX4", "differs-from-RejNTTPoly|boundary-candidate"), fmt.Sprintf("%s/lane%d/mask%d", id, lane, mask),
+								fmt.Sprintf("%s PolyDeriveUniformX4 lane %d (mask %04b, rho = %x, nonces %v) differs from RejNTTPoly; lane %d carries a stream with boundary candidates (q:%d q-1:%d q+1:%d 2^23-1:%d 0:%d refused-at-last:%d)",
+									im.Name, l, mask, seed, nonces, lane, st.EqQ, st.EqQm1, st.EqQp1, st.EqMax, st.EqZero, st.RejectedAtLast),
+								map[string]interface{}{"rho": verifmc.FullHex(seed[:]), "nonces": nonces, "mask": mask, "lane": lane})
+							break
+						}
+					}
+				}
+			}
+		})
+		_ = x4pairs
+		r.RequireCounter("boundary_streams_eq_q", 4)
+		r.RequireCounter("boundary_streams_eq_q_minus_1", 3)
+		r.RequireCounter("boundary_streams_eq_q_plus_1", 3)
+		r.RequireCounter("boundary_streams_eq_2^23-1", 3)
+		r.RequireCounter("boundary_streams_eq_0", 3)
+		r.RequireCounter("boundary_streams_refused_at_last_position", 4)
+		if len(qLastTable) > 0 {
+			r.RequireCounter("boundary_streams_eq_q_at_last_position", int64(len(qLastTable)))
+		}
+		if im.X4 {
+			r.RequireCounter("boundary_x4_calls", int64(32*len(hits)))
+		}
+		// whole matrix and key generation from key seeds whose rho has a stream with z == q
+		for _, ks := range BoundaryKeySeeds(p, 2) {
+			ks := ks
+			got := im.MatDerive(&ks.Rho)
+			want := ref.ExpandA(p, ks.Rho[:])
+			r.Eval(1)
+			r.Count("boundary_matrices", 1)
+			r.Distinct("Matb", ks.Counter)
+			for i := 0; i < p.K; i++ {
+				for j := 0; j < p.L; j++ {
+					if !polyEq(&got[i][j], want[i][j]) || !normalized(&got[i][j]) {
+						r.Violation(key("Mat.Derive", "differs-from-ExpandA|boundary-candidate"), fmt.Sprintf("boundary/matrix/%d", ks.Counter),
+							fmt.Sprintf("%s Mat.Derive(rho = %x, from key seed counter %d): entry (%d,%d) differs from ExpandA; entry (%d,%d) has a candidate equal to q", im.Name, ks.Rho, ks.Counter, i, j, ks.Row, ks.Col),
+							map[string]interface{}{"rho": verifmc.FullHex(ks.Rho[:]), "key_seed_counter": ks.Counter})
+						i, j = p.K, p.L
+					}
+				}
+			}
+			r.Sample(map[string]interface{}{"sampler": "Mat.Derive", "key_seed_counter": ks.Counter, "rho": verifmc.FullHex(ks.Rho[:]), "entry_with_candidate_q": []int{ks.Row, ks.Col}})
+		}
+		r.RequireCounter("boundary_matrices", 2)
+		if os.Getenv("VERIF_C04_SEARCH") != "" {
+			var floor [nCls]int
+			floor[clsQLast] = 2
+			hs, _, n := searchUniform("c04-boundary-last", floor, 1024)
+			for _, h := range hs {
+				fmt.Printf("QLAST {%d, %d}, // %d streams scanned\n", h.RhoIdx, h.Nonce, n)
+			}
+		}
+	}
+
 	// ---------------- ExpandS
 	type sJob struct {
 		si    int
@@ -172,6 +294,9 @@ func Samplers(t *testing.T, im *Impl) {
 	var sJobs []sJob
 	for si := range seeds64 {
 		max := 256
+		if si == 0 {
+			max = 4096
+		}
 		if thorough && si == 3 {
 			max = 1 << 16
 		}
@@ -201,6 +326,21 @@ func Samplers(t *testing.T, im *Impl) {
 		if st.Bytes > 272 {
 			r.Count("eta_cases_crossing_two_blocks", 1)
 		}
+		switch {
+		case st.LastFromLow && st.HighDropped:
+			r.Count("eta_last_coefficient_from_low_halfbyte_high_acceptable_but_dropped", 1)
+		case st.LastFromLow:
+			r.Count("eta_last_coefficient_from_low_halfbyte_high_refused", 1)
+		default:
+			r.Count("eta_last_coefficient_from_high_halfbyte", 1)
+		}
+		if st.LastByte%136 == 135 {
+			r.Count("eta_last_coefficient_from_last_byte_of_a_block", 1)
+		}
+		if st.LastByte%136 == 0 {
+			r.Count("eta_last_coefficient_from_first_byte_of_a_block", 1)
+		}
+		r.Count("eta_edge_halfbytes", st.Edge)
 		if !polyEq(&got, want) {
 			r.Violation(key("PolyDeriveUniformLeqEta", "differs-from-RejBoundedPoly"), id,
 				fmt.Sprintf("%s PolyDeriveUniformLeqEta(seed #%d, nonce %d) differs from RejBoundedPoly (%d bytes squeezed)", im.Name, j.si, j.nonce, st.Bytes),
@@ -208,6 +348,16 @@ func Samplers(t *testing.T, im *Impl) {
 		}
 	})
 	r.RequireCounter("eta_cases_crossing_block", 10)
+	r.RequireCounter("eta_last_coefficient_from_low_halfbyte_high_acceptable_but_dropped", 20)
+	r.RequireCounter("eta_last_coefficient_from_low_halfbyte_high_refused", 20)
+	r.RequireCounter("eta_last_coefficient_from_high_halfbyte", 20)
+	if p.Eta == 2 {
+		// 256 coefficients need 136.5 bytes on average: the end of the first 136-byte block is the typical stopping place.
+		// (For eta = 4 the stream stops around byte 228 +- 10, far from both block ends.)
+		r.RequireCounter("eta_last_coefficient_from_last_byte_of_a_block", 3)
+		r.RequireCounter("eta_last_coefficient_from_first_byte_of_a_block", 3)
+	}
+	r.RequireCounter("eta_edge_halfbytes", 1000)
 
 	// ---------------- ExpandMask
 	var mJobs []sJob
@@ -218,7 +368,11 @@ func Samplers(t *testing.T, im *Impl) {
 			}
 			continue
 		}
-		for n := 0; n < 1024; n++ {
+		mmax := 1024
+		if si == 1 {
+			mmax = 16384
+		}
+		for n := 0; n < mmax; n++ {
 			mJobs = append(mJobs, sJob{si, uint16(n)})
 		}
 		for n := 65536 - 16; n < 65536; n++ {
@@ -241,6 +395,16 @@ func Samplers(t *testing.T, im *Impl) {
 		im.DeriveUniformLeGamma1(&got, &seed, j.nonce)
 		r.Eval(1)
 		r.Distinct("M", j.si, j.nonce)
+		for _, c := range want {
+			switch c {
+			case int64(p.Gamma1):
+				r.Count("mask_coefficients_eq_gamma1", 1)
+			case int64(Q - p.Gamma1 + 1):
+				r.Count("mask_coefficients_eq_minus_gamma1_plus_1", 1)
+			case 0:
+				r.Count("mask_coefficients_eq_0", 1)
+			}
+		}
 		if !polyEq(&got, want) || !normalized(&got) {
 			r.Violation(key("PolyDeriveUniformLeGamma1", "differs-from-ExpandMask"), id,
 				fmt.Sprintf("%s PolyDeriveUniformLeGamma1(seed #%d, nonce %d) differs from ExpandMask", im.Name, j.si, j.nonce),
@@ -260,6 +424,10 @@ func Samplers(t *testing.T, im *Impl) {
 			}
 		}
 	})
+
+	r.RequireCounter("mask_coefficients_eq_gamma1", 2)
+	r.RequireCounter("mask_coefficients_eq_minus_gamma1_plus_1", 2)
+	r.RequireCounter("mask_coefficients_eq_0", 2)
 
 	// ---------------- SampleInBall
 	var cts [][]byte
@@ -291,6 +459,9 @@ func Samplers(t *testing.T, im *Impl) {
 			r.Count("ball_cases_with_rejection", 1)
 		}
 		r.Count("ball_rejected_bytes", st.Rejected)
+		r.Count("ball_draws_j_eq_i_accepted", st.SelfSwap)
+		r.Count("ball_draws_j_eq_i_plus_1_refused", st.RejectByOne)
+		r.Count("ball_draws_j_eq_0", st.ZeroPos)
 		if st.Bytes > 136 {
 			r.Count("ball_cases_crossing_block", 1)
 		}
@@ -320,6 +491,9 @@ func Samplers(t *testing.T, im *Impl) {
 		}
 	})
 	r.RequireCounter("ball_cases_with_rejection", 100)
+	r.RequireCounter("ball_draws_j_eq_i_accepted", 100)
+	r.RequireCounter("ball_draws_j_eq_i_plus_1_refused", 100)
+	r.RequireCounter("ball_draws_j_eq_0", 100)
 	r.RequireCounter("uniform_cases_with_rejection", 10)
 	r.Sample(map[string]interface{}{"sampler": "PolyDeriveUniform", "seed": verifmc.FullHex(seeds32[3]), "nonce": "0x0000..0x0f0f (row<<8|col)"})
 	r.Sample(map[string]interface{}{"sampler": "PolyDeriveUniformBall", "ctilde": verifmc.FullHex(cts[1])})
